@@ -9,44 +9,44 @@ From DippyV Require Import Base.Str Base.Verdict Model.Logging Proofs.LoggingP P
    class the real call can raise), for every input (mode, verdict class, route, config): stdout
    and the exit status are those of the run with logging off. *)
 Theorem C15_observer : forall ts1 ts2 i f1 f2, realistic f1 -> realistic f2 ->
-  let a := run head f1 ts1 i in let b := run head f2 ts2 i in let c := run_nolog i in
+  let a := hook_run head f1 ts1 i in let b := hook_run head f2 ts2 i in let c := run_nolog i in
   r_stdout a = r_stdout b /\ r_exit a = r_exit b /\ r_stdout a = r_stdout c /\ r_exit a = r_exit c.
 Proof. exact observer. Qed.
 Print Assumptions C15_observer.
 
 (* the general reason: every fault is caught at the site where it arises *)
 Theorem C15_observer_sites : forall C ts i f, handled C f ->
-  r_stdout (run C f ts i) = r_stdout (run_nolog i) /\ r_exit (run C f ts i) = r_exit (run_nolog i).
+  r_stdout (hook_run C f ts i) = r_stdout (run_nolog i) /\ r_exit (hook_run C f ts i) = r_exit (run_nolog i).
 Proof. exact observer_gen. Qed.
 Print Assumptions C15_observer_sites.
 
 (* stdout is main's answer, nothing else *)
 Theorem C15_stdout : forall C f ts, handled C f -> forall i,
-  r_stdout (run C f ts i) = expected i /\ r_exit (run C f ts i) = 0%nat.
+  r_stdout (hook_run C f ts i) = expected i /\ r_exit (hook_run C f ts i) = 0%nat.
 Proof. exact run_out. Qed.
 Print Assumptions C15_stdout.
 
 (* the code before d0d4edf / bdbaab3 (ValueError for NUL in the log path, RuntimeError for ~nosuchuser)
    did not have the property: the verdict became {} *)
 Theorem C15_legacy_refuted :
-  exists i f, realistic f /\ r_stdout (run legacy f [] i) <> r_stdout (run_nolog i).
+  exists i f, realistic f /\ r_stdout (hook_run legacy f [] i) <> r_stdout (run_nolog i).
 Proof. exact legacy_refuted. Qed.
 Print Assumptions C15_legacy_refuted.
 Theorem C15_legacy_expand_refuted :
-  exists i f, realistic f /\ r_stdout (run legacy f [] i) <> r_stdout (run_nolog i).
+  exists i f, realistic f /\ r_stdout (hook_run legacy f [] i) <> r_stdout (run_nolog i).
 Proof. exact legacy_expand_refuted. Qed.
 Print Assumptions C15_legacy_expand_refuted.
 (* `realistic` cannot be dropped: setup_logging catches OSError only (a ValueError there would need
    a NUL in HOME, which neither the environment nor the password database can hold) *)
 Theorem C15_setup_hypothesis_refuted :
-  exists i f, r_exit (run head f [] i) <> r_exit (run_nolog i) /\ r_stdout (run head f [] i) <> r_stdout (run_nolog i).
+  exists i f, r_exit (hook_run head f [] i) <> r_exit (run_nolog i) /\ r_stdout (hook_run head f [] i) <> r_stdout (run_nolog i).
 Proof. exact setup_unrealistic_refuted. Qed.
 Print Assumptions C15_setup_hypothesis_refuted.
 (* stderr is NOT the same: a failing approvals sink makes the logging module print a traceback per
    record (logging.raiseExceptions).  Full statement "no traceback on stderr, whatever the sinks do"
    (forall i f, realistic f -> r_tracebacks (run head f ts i) = 0) is false of today's code: *)
 Theorem C15_traceback_refuted :
-  exists i f, realistic f /\ r_tracebacks (run head f [] i) <> r_tracebacks (run_nolog i).
+  exists i f, realistic f /\ r_tracebacks (hook_run head f [] i) <> r_tracebacks (run_nolog i).
 Proof. exact traceback_refuted. Qed.
 Print Assumptions C15_traceback_refuted.
 
@@ -58,7 +58,7 @@ Theorem C15_one_line : forall f ts i p full,
   h_json_ok i = true -> h_cfg_error i = false -> final_log (h_cfg i) None false = (Some p, full) ->
   decides (h_route i) = true ->
   exists e,
-    r_declog (run head f ts i) = [jline e] /\
+    r_declog (hook_run head f ts i) = [jline e] /\
     complete_line (jline e) /\
     read_line (jline e) = Some (map upair e) /\
     route_entry full ts (h_route i) = Some e /\
@@ -70,12 +70,12 @@ Print Assumptions C15_one_line.
 Theorem C15_no_line : forall f ts i,
   realistic f -> dec_ok f ->
   h_json_ok i = false \/ h_cfg_error i = true \/ fst (final_log (h_cfg i) None false) = None \/ decides (h_route i) = false ->
-  r_declog (run head f ts i) = [].
+  r_declog (hook_run head f ts i) = [].
 Proof. exact no_line. Qed.
 Print Assumptions C15_no_line.
 (* whatever fails: the run appends nothing or one complete rendered line, never a fragment *)
 Theorem C15_no_partial_line : forall f ts i, realistic f ->
-  r_declog (run head f ts i) = [] \/ exists e, r_declog (run head f ts i) = [jline e].
+  r_declog (hook_run head f ts i) = [] \/ exists e, r_declog (hook_run head f ts i) = [jline e].
 Proof. exact no_partial_line. Qed.
 Print Assumptions C15_no_partial_line.
 
@@ -115,13 +115,13 @@ Print Assumptions C15_interleave_chunked_refuted.
    a working run logs one line with the command under log-full *)
 Example C15_example_faulty :
   let f : faults := fun s k => match s with Emit | DecWrite => Some EOS | _ => None end in
-  r_stdout (run head f $"T" a_check) = [OEnv Claude Allow $"ls"] /\ r_declog (run head f $"T" a_check) = [] /\
-  r_tracebacks (run head f $"T" a_check) = 3%nat.
+  r_stdout (hook_run head f $"T" a_check) = [OEnv Claude Allow $"ls"] /\ r_declog (hook_run head f $"T" a_check) = [] /\
+  r_tracebacks (hook_run head f $"T" a_check) = 3%nat.
 Proof. vm_compute. repeat split. Qed.
 Example C15_example_full :
   let i := {| h_json_ok := true; h_explicit := false; h_mode := Claude; h_unknown_tool := false;
               h_cfg := [CSetLog $"/x/a.log"; CSetLogFull]; h_cfg_error := false;
               h_route := RCheck $"ls" Allow $"ls" |} in
-  r_declog (run head nofault $"T" i) =
+  r_declog (hook_run head nofault $"T" i) =
   [$"{""decision"": ""allow"", ""cmd"": ""ls"", ""command"": ""ls"", ""ts"": ""T""}" ++ [10]].
 Proof. vm_compute. reflexivity. Qed.
